@@ -377,6 +377,12 @@ func c01OneLicenceManySpellings() {
 					}
 				}
 			}
+			if round%4 == 3 { // a plain OR of the spellings: each heads its own alternative
+				t = leafT(0)
+				for i := 1; i < n; i++ {
+					t = orT(t, leafT(i))
+				}
+			}
 			text := t.render(terms, "", false, rng.Intn(3), true)
 			m := 1 + rng.Intn(3)
 			p2 := rng.Perm(len(sp))
@@ -1454,7 +1460,7 @@ func init() {
 			n := 0
 			for _, a := range as {
 				for _, b := range bs {
-					if n >= scale(24, 200) {
+					if n >= scale(24, 200) && len(as) <= 8 { // families with more than 8 versions: every pair (positions packed in 3 bits)
 						break
 					}
 					a, b = strings.TrimSuffix(a, "+"), strings.TrimSuffix(b, "+")
